@@ -69,6 +69,43 @@ class LocalLib:
         return self.t.DuplicateTagError, self.t.TagNotFoundError
 
 
+class SubLib(LocalLib):
+    """a user subclass of TagLibrary with members of its own (a method, a read-only property, a class constant): its members are
+    attributes of the library like the inherited ones - a tag of that name is either refused or everything keeps working"""
+    kind = "subclass"
+
+    def __init__(self, tags):
+        self.t = tags
+
+        class Zoo(tags.TagLibrary):
+            LIMIT = 99
+
+            def names(self):
+                return [n for n, _ in self.itemize()]
+
+            @property
+            def size(self):
+                return len(self)
+        self.lib = Zoo()
+
+    def members_work(self, model):
+        lib = self.lib
+        if callable(getattr(type(lib), "names", None)) is False:
+            return "class member 'names' was replaced"
+        for nm, want in (("names", None), ("size", len(model)), ("LIMIT", 99)):
+            if nm in model:
+                continue          # accepted as a tag: then the NAME denotes the tag (checked by verify), the member is knowingly shadowed
+            try:
+                got = lib.names() if nm == "names" else getattr(lib, nm)
+            except Exception as e:
+                return f"member {nm!r} of the subclass raised {type(e).__name__}: {e}"
+            if nm == "names":
+                want = list(model)
+            if got != want:
+                return f"member {nm!r} of the subclass gives {got!r}, expected {want!r}"
+        return None
+
+
 class ModuleLib:
     kind = "module"
 
@@ -148,6 +185,8 @@ def interpret(case, global_mod=None):
             libs.append(ModuleLib(global_mod))
         elif i == 0 and gkind == "fresh-module":
             libs.append(ModuleLib(fresh_module()))
+        elif (i + len(case["ops"])) % 3 == 1:
+            libs.append(SubLib(Tags))
         else:
             libs.append(LocalLib(Tags))
     models = [["NONE"] for _ in libs]
@@ -169,7 +208,7 @@ def interpret(case, global_mod=None):
             name = op["name"]
             if not isinstance(name, str):
                 raise InvalidCase("name")
-            ordinary = bool(ORDINARY.match(name)) and name != "NONE"
+            ordinary = bool(ORDINARY.match(name)) and name != "NONE" and not (lib.kind == "subclass" and name in ("names", "size", "LIMIT"))
             must_reject = name in model
             if not ordinary and not must_reject:
                 hostile += 1
@@ -222,6 +261,11 @@ def interpret(case, global_mod=None):
         if due or k == len(case["ops"]) - 1:
             for j, (l2, m2) in enumerate(zip(libs, models)):
                 verify(l2, m2, where + (f" [observing lib {j}]" if j != li else ""))
+                if l2.kind == "subclass":
+                    labels.add("user-subclass-library")
+                    bad = l2.members_work(m2)
+                    if bad:
+                        raise Violation("subclass-member-broken", f"{where}: library of a user subclass, tags {m2}: {bad}")
     if gkind == "none":
         # the real global library must not have noticed anything
         verify(ModuleLib(Tags), _global_model(Tags), "real global library after a local-only history")
@@ -271,7 +315,7 @@ def hostile_names():
     names |= {"__class__", "__dict__", "__len__", "__init__", "__getattribute__", "__setattr__", "__slots__", "__weakref__",
               "__module__", "__doc__", "__hash__", "__eq__", "__getattr__", "__name__", "__file__", "__builtins__",
               "add_tag", "get_tag_name", "itemize", "_tag_counter", "_tag_names", "NONE", "TagLibrary", "_module_library",
-              "DuplicateTagError", "TagNotFoundError", "", " ", "a b", "1", "None", "self", "é", "tag-1", "\n", "x.y"}
+              "DuplicateTagError", "TagNotFoundError", "names", "size", "LIMIT", "", " ", "a b", "1", "None", "self", "é", "tag-1", "\n", "x.y"}
     return sorted(n for n in names if isinstance(n, str))
 
 
@@ -280,7 +324,7 @@ def strategy(tier):
     from vf.fixtures import sized_lists
     hostile = hostile_names()
     methods = ["add_tag", "get_tag_name", "itemize", "__len__", "__class__", "__dict__", "_tag_names", "_tag_counter",
-               "TagLibrary", "_module_library", "__getattr__", "DuplicateTagError"]
+               "TagLibrary", "_module_library", "__getattr__", "DuplicateTagError", "names", "size", "LIMIT", "names", "size"]
     ordinary = st.sampled_from(["A", "B", "SHEEP", "WOLF", "PREY", "T1", "T2", "X_1", "GRASS"])
     # names that LOOK special (dunder / underscore style) but are nobody's attribute: perfectly good tag names
     lookalike = st.sampled_from(["__x__", "__tag__", "__wolf__", "__prey__", "_hidden", "__mangled", "__X", "_", "__"])
